@@ -184,6 +184,13 @@ func (g *c04Gen) num(d int) *c04Expr {
 		if a.Op == "num" { // a negated literal is a literal
 			return a
 		}
+		if g.n(0, 2, "unaryPlus") == 0 {
+			// +x is x, of whatever kind x is (also for the unsigned kinds, beyond MaxInt64 included)
+			if g.n(0, 1, "unaryPlusOnUnsigned") == 0 {
+				a = g.addVar(c04Var{Kind: []string{"uint8", "uint", "uint64", "uint32"}[g.n(0, 3, "uplusKind")], I: c04Ints[g.n(3, 7, "uplusVal")]})
+			}
+			return &c04Expr{Op: "pos", A: a}
+		}
 		return &c04Expr{Op: "neg", A: a}
 	case 1:
 		return g.style(&c04Expr{Op: "tern", A: g.cond(d - 1), B: g.maybeProbe(g.num(d - 1)), C: g.maybeProbe(g.num(d - 1))})
@@ -260,6 +267,9 @@ func (g *c04Gen) boolean(d int) *c04Expr {
 					a = g.addVar(c04Var{Kind: []string{"float64", "float32"}[g.n(0, 1, "bigfkind")], F: []float64{0.5, -1.5, 3, 9.3e18, 1e19}[g.n(0, 4, "bigfval")]})
 				}
 				b = g.addVar(c04Var{Kind: []string{"biguint", "biguint64"}[g.n(0, 1, "bigKind")], I: int64(g.n(0, 3, "bigOffset")) * 4096})
+				if g.n(0, 2, "bigUnaryPlus") == 0 {
+					b = &c04Expr{Op: "pos", A: b} // +x is x, beyond MaxInt64 too
+				}
 			}
 			return g.style(&c04Expr{Op: "bin", Bop: op, A: a, B: b})
 		}
@@ -356,7 +366,7 @@ func c04Level(e *c04Expr) int {
 		return lvTern
 	case "not":
 		return lvLogic
-	case "neg":
+	case "neg", "pos":
 		return lvUnary
 	case "bin":
 		switch e.Bop {
@@ -396,6 +406,8 @@ func opName(e *c04Expr) string {
 		return "?:"
 	case "neg":
 		return "neg"
+	case "pos":
+		return "pos"
 	case "not":
 		return "!"
 	}
@@ -443,10 +455,10 @@ func c04raw(e *c04Expr, sh *c04Shape) string {
 		return fmt.Sprintf("v%d", e.Var)
 	case "probe":
 		return fmt.Sprintf("p(%d, %s)", e.ID, c04p(e.A, 0, sh))
-	case "neg":
+	case "neg", "pos":
 		sh.nOps++
 		sh.child(e, e.A, lvPrimary)
-		return "-" + c04p(e.A, lvPrimary, sh)
+		return map[string]string{"neg": "-", "pos": "+"}[e.Op] + c04p(e.A, lvPrimary, sh)
 	case "not":
 		sh.nOps++
 		op := "!"
@@ -611,6 +623,8 @@ func (ev *c04Eval) eval(e *c04Expr) c04Val {
 		return c04Val{k: 'b', b: v.B}
 	case "probe":
 		ev.log = append(ev.log, e.ID)
+		return ev.eval(e.A)
+	case "pos":
 		return ev.eval(e.A)
 	case "neg":
 		a := ev.eval(e.A)
@@ -918,7 +932,7 @@ func judgeC04(c c04Case) (v core.Verdict) {
 
 func TestC04(t *testing.T) {
 	core.Run(t, "C04",
-		"typed expression trees (depth<=5) over numeric (also character constants)/string/bool literals and Execute variables of every Go int/uint/float kind plus string and bool, unsigned values beyond MaxInt64 on the right of floating-point operands, the same operand on both sides of == / != (also a NaN), context as a map or as a pointer to a struct; minimal + random redundant parentheses; every operator spaced on both sides or neither; && || ?: operands wrapped in logging probes; also: a negation written in front of an unparenthesised comparison (!a == b is !(a == b)); a quarter of the cases with VarMap entries of kind Interface (what reflect hands out for the entries of a map[string]interface{}); non-trivial = >=2 operators with two different precedence levels adjacent without parentheses or a no-space operator, or a probe inside a branch the lazy operators must skip; shapes whose meaning the statement leaves open are discarded and counted",
+		"typed expression trees (depth<=5) over numeric (also character constants)/string/bool literals and Execute variables of every Go int/uint/float kind plus string and bool, unsigned values beyond MaxInt64 on the right of floating-point operands, the same operand on both sides of == / != (also a NaN), context as a map or as a pointer to a struct; minimal + random redundant parentheses; every operator spaced on both sides or neither; && || ?: operands wrapped in logging probes; also: a negation written in front of an unparenthesised comparison (!a == b is !(a == b)); a quarter of the cases with VarMap entries of kind Interface (what reflect hands out for the entries of a map[string]interface{}); round 10: unary plus (on signed, unsigned and floating-point operands, and on unsigned values beyond MaxInt64 in comparisons); non-trivial = >=2 operators with two different precedence levels adjacent without parentheses or a no-space operator, or a probe inside a branch the lazy operators must skip; shapes whose meaning the statement leaves open are discarded and counted",
 		genC04, judgeC04)
 }
 
